@@ -524,6 +524,44 @@ class Fn:
                     return ft
         return ('field', t, name)
 
+    def written_through_alias(self):
+        """locals that a statement `(*r) = ..` of this body overwrites, r being `&mut L` / `&mut *r'` / `move r'`"""
+        if getattr(self, '_wta', None) is not None:
+            return self._wta
+        self._wta = set()
+        pts = {}
+        defs = self.defs()
+        changed = True
+        while changed:
+            changed = False
+            for l, ds in defs.items():
+                whole = [d for d in ds if not d[-1]]
+                if l in pts or len(whole) != 1 or whole[0][0] != 'assign':
+                    continue
+                rv = whole[0][3]
+                tgt = None
+                if rv['k'] == 'ref' and rv.get('mut'):
+                    pl = rv['place']
+                    if not pl['p']:
+                        tgt = pl['l']
+                    elif len(pl['p']) == 1 and pl['p'][0]['k'] == 'deref' and pl['l'] in pts:
+                        tgt = pts[pl['l']]
+                elif rv['k'] == 'use' and rv['o'].get('k') in ('move', 'copy') and not rv['o']['place']['p'] and rv['o']['place']['l'] in pts:
+                    tgt = pts[rv['o']['place']['l']]
+                if tgt is not None:
+                    pts[l] = tgt
+                    changed = True
+        out = set()
+        for blk in self.blocks:
+            if blk['cleanup']:
+                continue
+            for st in blk['stmts']:
+                pl = st['place']
+                if len(pl['p']) == 1 and pl['p'][0]['k'] == 'deref' and pl['l'] in pts:
+                    out.add(pts[pl['l']])
+        self._wta = out
+        return out
+
     def local_term(self, l, depth=0, seen=frozenset()):
         key = l
         if key in self._term_cache:
@@ -544,6 +582,10 @@ class Fn:
         whole = [d for d in ds if not d[-1]]
         partial = [d for d in ds if d[-1]]
         if partial or not whole:
+            return ('var', l, self.local_name(l))
+        if l in self.written_through_alias():
+            # re-assigned in this body through a `&mut` alias (`*r = ..`, typically a virtually inlined helper taking
+            # `&mut T`): its single direct definition is not its value everywhere
             return ('var', l, self.local_name(l))
         if len(whole) == 1:
             return self._def_term(whole[0], depth, seen)
